@@ -95,6 +95,15 @@ fn main() {
         eprintln!("usage: e57sim <PROP> [quick|thorough] [--seed N] [--replay FILE]");
         std::process::exit(2)
     });
+    if prop == "golden" {
+        match refcodec::print_golden() {
+            Ok(()) => std::process::exit(0),
+            Err(e) => {
+                eprintln!("HARNESS-ERROR {e}");
+                std::process::exit(2);
+            }
+        }
+    }
     if prop == "calibrate" {
         match refcodec::calibrate(true) {
             Ok(n) => {
